@@ -104,6 +104,12 @@ def run(ctx):
     hang_faces = [[0, 1, 2, 3], [1, 4, 5, 6], [6, 5, 7, 2]]
     datasets.append(gen.ugrid(rng, mesh=(hang_nodes, hang_faces), invalid=False, supplied=set()))
     datasets.append(gen.cf2d(rng, ny=3, nx=3, bounds=True, holes='none', invalid=False, overlap=True))
+    # a regular grid rolled along its longitude (cells 3, 4, 0, 1, 2: a 0..360 file cut somewhere else): the axis is not monotonic
+    dr_ = gen.cf1d(rng, ny=3, nx=5, bounds=True)
+    dr_.ds = dr_.ds.roll({dr_.spec['xdim']: 2}, roll_coords=True)
+    dr_.spec['lon'] = [float(v) for v in numpy.roll(numpy.array(dr_.spec['lon']), 2)]
+    dr_.spec['label'] += ' rolled along longitude'
+    datasets.append(dr_)
     # a mesh whose node longitudes are single precision and node latitudes double precision
     datasets.append(gen.ugrid(rng, w=3, h=2, invalid=False, node_dtypes='x_f4'))
     # curvilinear grids whose longitude is stored (x, y) while the latitude is stored (y, x): square and not, corners stored and not
